@@ -801,6 +801,45 @@ pub fn lock_handover(s: &mut Src) -> Program {
     Program { threads, rx_owner: 0, arc_owner: vec![] }
 }
 
+/// Shapes with data-dependent control flow: a thread inspects shared state under a lock and,
+/// depending on what it saw, waits for the other thread while still holding the lock.
+pub fn cond_shape(s: &mut Src) -> Program {
+    let use_rw = s.chance(1, 2);
+    // the worker's critical section, followed by a tail that must not matter
+    let mut w: Vec<Op> = if use_rw {
+        vec![Op::Write { r: 0 }, Op::UnlockW { r: 0 }]
+    } else {
+        vec![Op::Lock { m: 0 }, Op::Incr { m: 0 }, Op::Unlock { m: 0 }]
+    };
+    match s.pick(4) {
+        0 => w.push(Op::Yield),
+        1 => {
+            w.push(Op::Yield);
+            w.push(Op::Yield);
+        }
+        2 => w.push(Op::NfNotify { n: 0 }),
+        _ => {}
+    }
+    // main: look under the lock; join the worker inside the section only if it is past its own
+    let mut m: Vec<Op> = vec![Op::Spawn { t: 1 }];
+    if use_rw {
+        if s.chance(1, 2) {
+            m.extend([Op::Read { r: 0 }, Op::SkipNextUnless { v: 1 }, Op::Join { t: 1 }, Op::UnlockR { r: 0 }]);
+        } else {
+            m.extend([Op::Write { r: 0 }, Op::SkipNextUnless { v: 2 }, Op::Join { t: 1 }, Op::UnlockW { r: 0 }]);
+        }
+    } else {
+        m.extend([Op::Lock { m: 0 }, Op::Incr { m: 0 }, Op::SkipNextUnless { v: 2 }, Op::Join { t: 1 }, Op::Unlock { m: 0 }]);
+    }
+    if s.chance(1, 5) {
+        // planted: join unconditionally inside the section (a real deadlock when main got the lock first)
+        let i = m.iter().position(|o| matches!(o, Op::SkipNextUnless { .. })).unwrap();
+        m.remove(i);
+    }
+    m.push(Op::Join { t: 1 });
+    Program { threads: vec![m, w], rx_owner: 0, arc_owner: vec![] }
+}
+
 /// Classical wait/notify shapes with a cell handed from the notifier to the waiter.
 pub fn wait_shape(s: &mut Src) -> Program {
     let w = Op::CellWrite { c: 0 };
@@ -1181,7 +1220,17 @@ pub fn arc_prog(s: &mut Src, p: &ArcParams) -> Program {
                 }
             }
             4 if p.inspect => Op::ArcCount { x: xb },
-            5 if p.inspect => Op::ArcGetMut { x: xb },
+            5 if p.inspect => {
+                if p.cells && s.chance(1, 2) {
+                    // exclusive access after a successful get_mut: `if let Some(v) = Arc::get_mut(..) { write }`
+                    threads[t].push(Op::ArcGetMut { x: xb });
+                    threads[t].push(Op::SkipNextUnless { v: 1 });
+                    made += 1;
+                    Op::ArcCellWrite { x: xb }
+                } else {
+                    Op::ArcGetMut { x: xb }
+                }
+            }
             6 if p.inspect && handles[t][x] == 1 => {
                 closed[t][x] = true;
                 Op::ArcTryUnwrap { x: xb }
